@@ -207,6 +207,104 @@ def rows_for(chk, consts, tag, inject):
     return nrows, nfault
 
 
+def nested_rollback(chk):
+    """every PyTree check at ANY nesting depth (union member, is_leaf predicate during the enclosing flatten, leaf check)
+    recorded with the context before / after; TLC applies the Rollback theorem to each (Rows_JtRollback)"""
+    import typing
+    import itertools
+    import numpy as np
+    from jaxtyping import Float, PyTree, jaxtyped, AnnotationError
+    from jaxtyping import _pytree_type as pt
+    from . import jt_verif_plugin as plug
+    from . import render as R
+    from .common import validate_rows
+    rows = []
+    depth = [0]
+    orig = pt._MetaPyTree.__instancecheck__
+    cur = {}
+
+    def snap():
+        try:
+            m, _, _ = plug._pmemo()
+            return m
+        except Exception:  # noqa - outside the vocabulary
+            return None
+
+    def wrapped(cls, obj):
+        if not hasattr(cls, "leaftype") or obj is None:
+            return orig(cls, obj)
+        pre, fb = snap(), R.flags()
+        depth[0] += 1
+        res = "?"
+        try:
+            out = orig(cls, obj)
+            res = "T" if out else "F"
+            return out
+        except AnnotationError:
+            res = "E"
+            raise
+        except BaseException as e:  # noqa
+            res = "Exc:" + type(e).__name__
+            raise
+        finally:
+            depth[0] -= 1
+            post = snap()
+            if pre is not None and post is not None:
+                fa = R.flags()
+                norm = lambda f: {"flatten": bool(f.get("flatten")), "label": f.get("label") or ""}
+                rows.append({"id": len(rows), "depth": depth[0], "hint": cls.__name__[:100], "res": res, "pre": pre, "post": post,
+                             "flags_before": norm(fb), "flags_after": norm(fa), "case": cur.get("desc", "")})
+    A = Float[np.ndarray, "a"]
+    Z = lambda *s: np.zeros(s, np.float32)
+    hints = {
+        "U[PT[int,S],str]": PyTree[typing.Union[PyTree[int, "S"], str]],
+        "U[PT[int,S],str,int]": PyTree[typing.Union[PyTree[int, "S"], str, int]],
+        "U[str,PT[int,S]]": PyTree[typing.Union[str, PyTree[int, "S"]]],
+        "U[PT[A,S],int]": PyTree[typing.Union[PyTree[A, "S"], int]],
+        "PT[PT[int,S]]": PyTree[PyTree[int, "S"]],
+        "PT[U[PT[A],str]],T": PyTree[typing.Union[PyTree[A], str], "T"],
+        "tuple[PT[int,S],int]": PyTree[typing.Tuple[PyTree[int, "S"], int]],
+    }
+    atoms = [1, "s", Z(2), Z(3), None, ()]
+    trees = list(atoms) + [(x, y) for x, y in itertools.product(atoms, repeat=2)] + [((1, 2), "s"), ((1, "s"), 2), [(1,), ("s",)],
+                                                                                     {"k": (1, 2), "j": "s"}, ((Z(2), Z(3)), 1), ((Z(2), Z(2)), "s")]
+    pt._MetaPyTree.__instancecheck__ = wrapped
+    try:
+        for (hn, h), tr in itertools.product(hints.items(), trees):
+            for pre_bind in (None, "S", "a"):
+                cur["desc"] = f"{hn} / {tr!r:.60} / pre={pre_bind}"
+                with jaxtyped("context"):
+                    if pre_bind == "S":
+                        isinstance((0, 0), PyTree[int, "S"])
+                    elif pre_bind == "a":
+                        isinstance(Z(2), A)
+                    try:
+                        isinstance(tr, h)
+                    except AnnotationError:
+                        pass
+    finally:
+        pt._MetaPyTree.__instancecheck__ = orig
+    nested = sum(1 for r in rows if r["depth"] > 0)
+    failed_nested = sum(1 for r in rows if r["depth"] > 0 and r["res"] != "T")
+    if failed_nested < 100:
+        raise MachineryFailure(f"only {failed_nested} failing nested PyTree checks were recorded")
+    files = []
+    for i in range(tlc.NCPU):
+        fp = os.path.join(chk.workdir, f"nested_{i}.ndjson")
+        with open(fp, "w") as f:
+            for r in rows[i::tlc.NCPU]:
+                f.write(json.dumps(r, separators=(",", ":")) + "\n")
+        files.append(fp)
+    mism, total = validate_rows(chk, "Rows_JtRollback", files, name="nested-rollback")
+    want = dict(mism)
+    for r in rows:
+        if r["id"] in want:
+            chk.disagree(f"C04:nested:{r['case']}:check={r['hint']}:depth={r['depth']}:res={r['res']}", {"row": r, "spec_expected": want[r["id"]]})
+    chk.cov["traces_validated_against_impl"] += total
+    chk.cov["evaluations"] += total
+    chk.part("nested_pytree_checks", recorded=total, nested=nested, nested_not_passing=failed_nested, hints=sorted(hints))
+
+
 def main(tier):
     chk = Check("C04", tier)
     try:
@@ -239,6 +337,7 @@ def main(tier):
             pytree_rows = None
         if pytree_rows is not None:
             pytree_rows.run_for_c04(chk, tier)
+            nested_rollback(chk)
         else:
             chk.notes.append("PyTree rows not available")
         chk.cov["distinct_nontrivial"] = nf
